@@ -266,12 +266,13 @@ fn model_apply<T: Elem>(m: &[T], op: &Op<T>) -> (Exp<T>, Option<Exp<T>>, usize) 
         (Exp { out: Out::Flag(true), state: v }, None, 1)
       }
       (None, Some(j)) => {
-        // `current` is not in the set but the update's key is: DESIGN.md's model ("first position
-        // holding either key") replaces in place; "nothing to replace -> false, unchanged" is an equally
-        // admissible reading of the doc comment, so both are accepted.
+        // `current` is not in the set but the update's key is: the list model of DESIGN.md ("upd goes to the first
+        // position holding either key") replaces that entry in place and reports true. The alternative reading
+        // "nothing to replace -> false, unchanged" was accepted in an earlier version of this monitor; it is no longer,
+        // because it leaves a stale value under the update's key while the model (and the anchored `change`) do not.
         let mut v = m.to_vec();
         v[j] = x.clone();
-        (Exp { out: Out::Flag(true), state: v }, Some(same(Out::Flag(false))), 2)
+        (Exp { out: Out::Flag(true), state: v }, None, 2)
       }
       (Some(i), Some(j)) if i == j => {
         let mut v = m.to_vec();
